@@ -318,7 +318,8 @@ fn table_strategy(idx: usize, page_id: i32, long: bool) -> impl Strategy<Value =
                 // one cell beyond 64 KiB
                 if let Some(ci) = cols.iter().position(|c| matches!(c.def.ty, Ty::Str(_)) && !c.def.key) {
                     let ri = longpos.index(rows.len());
-                    rows[ri][ci] = V::Str("L".repeat(70_000));
+                    let len = [65_534usize, 65_535, 65_536, 70_000][longpos.index(4)];
+                    rows[ri][ci] = V::Str("L".repeat(len));
                 }
             }
             AbsTable { name: ["Alpha", "Beta.t", "_gamma", "D4"][idx % 4].to_string(), cols, rows }
@@ -359,7 +360,7 @@ fn summary_strategy() -> impl Strategy<Value = SummarySpec> {
 pub fn db_strategy() -> impl Strategy<Value = AbsDb> {
     let pool = (any::<bool>(), prop_oneof![3 => Just(0u8), 1 => Just(3), 1 => Just(5)], prop_oneof![3 => Just(0u8), 1 => Just(2), 1 => Just(4)], prop_oneof![3 => Just(0u8), 1 => Just(3)], 1u8..3, prop_oneof![48 => Just(0u32), 1 => Just(65_600u32)])
         .prop_map(|(long_refs, hole_every, dup_every, overcount_every, overcount_by, leading_holes)| PoolOpts { long_refs: long_refs || leading_holes > 0, hole_every, dup_every, overcount_every, overcount_by, leading_holes });
-    (0usize..PAGES.len() + 1, 1usize..5, prop::bool::weighted(0.04), pool, prop::bool::weighted(0.8), summary_strategy(), 0u8..3, prop::collection::vec(("[a-zA-Z0-9._]{1,10}", prop::collection::vec(any::<u8>(), 0..40)), 0..3))
+    (0usize..PAGES.len() + 1, 1usize..5, prop::bool::weighted(0.06), pool, prop::bool::weighted(0.8), summary_strategy(), 0u8..3, prop::collection::vec(("[a-zA-Z0-9._]{1,10}", prop::collection::vec(any::<u8>(), 0..40)), 0..3))
         .prop_flat_map(|(pi, ntables, long, pool, with_validation, summary, ptype, streams)| {
             let id = if pi == PAGES.len() { 0 } else { PAGES[pi].id };
             let page_id = if id == 0 { 65001 } else { id };
